@@ -66,7 +66,11 @@ func (o *CandidateNode) UnmarshalJSON(data []byte) error {
 
 			childKey := o.CreateChild()
 			childKey.IsMapKey = true
-			childKey.Value = tok.(string)
+			keyText, isText := tok.(string)
+			if !isText {
+				return fmt.Errorf("expected a string as object key, got %v", tok)
+			}
+			childKey.Value = keyText
 			childKey.Kind = ScalarNode
 			childKey.Tag = "!!str"
 
